@@ -20,6 +20,11 @@ DIRECTED = [
     "stel i = 0; zolang i < 1000 { {} i += 1 } i", "functie f(a) { a } stel i = 0; zolang i < 300 { f([i]); i += 1 } i", "stel s = \"abc\"; s[0] = s; s",
     "stel a = [3, 1, 2]; stel i = 0; zolang i < 3 { stel j = 0; zolang j < 2 { als a[j] > a[j + 1] { stel t = a[j]; a[j] = a[j + 1]; a[j + 1] = t } j += 1 } i += 1 } a",
     "1 / 0", "[1][2]", "x", "1 +", "lengte(1, 2)",
+    # rendering and parsing depth: the same in every context and build profile (these stay below the native-stack finding D27)
+    "stel a = []; stel i = 0; zolang i < 70 { a = [a]; i += 1 } print(\"{}\", a); [1, [2, [3]]]", "print(\"{}\", [1, [2, [3, [4]]]]); [[[[5]]]]",
+    "(" * 100 + "1" + ")" * 100, "(" * 300 + "1" + ")" * 300, "[" * 120 + "1" + "]" * 120, "lengte(" * 60 + "\"x\"" + ")" * 60,
+    "stel k = 63; " + " anders ".join("als k == %d { print(\"tak {}\", %d) }" % (j, j) for j in range(64)) + " anders { print(\"geen\") }",
+    "stel t = 0; " + "".join("als ja { " for _ in range(40)) + "t = 1" + " }" * 40 + " t",
     # range ends of every arithmetic path (a build profile must not decide between a value, a wrap and a trap)
     "-(0 - 1152921504606846975 - 1)", "functie f(x) { -x } f(0 - 1152921504606846975 - 1)", "(0 - 1152921504606846975 - 1) - 1", "functie f(x) { x - 1 } f(0 - 1152921504606846975 - 1)",
     "functie f(x) { x + 1 } f(1152921504606846975)", "functie f(x) { 1 + x } f(1152921504606846975)", "functie f(x) { x * 2 } f(1152921504606846975)", "(0 - 1152921504606846975 - 1) % (0 - 1)",
